@@ -139,6 +139,73 @@ Theorem C20_monitor_sound :
 Proof. exact c20_monitor_sound. Qed.
 Print Assumptions C20_monitor_sound.
 
+(* wd -1 is the descriptor of no watch.  It is what inotify_add_watch answers when it fails and the wd
+   of the kernel's queue-overflow events.
+   (1) In the model: a registration for which inotify_add_watch answers -1 returns -1 (rc 1: the harness
+   guard skipped the call) and changes no watch set, no watch table entry, nothing; in every reachable
+   state (Inv, first theorem of C20_unregister_in_handler_safe) an event with wd -1 is for no watch. *)
+Theorem C20_failed_registration :
+  forall s w i m, Inv s ->
+    exists s' rc, do_act s (ARegW w i (-1) m) = (Ok s', rc) /\ (rc = -1 \/ rc = 1) /\ Inv s' /\
+      (forall j, watches_of s' j = watches_of s j) /\ (forall x, wtab s' x = wtab s x) /\ frame s' = frame s.
+Proof. exact c20_failed_registration. Qed.
+Print Assumptions C20_failed_registration.
+
+Theorem C20_overflow_event_unrouted :
+  forall s i, Inv s -> reg_of s i (-1) = None.
+Proof. exact c20_overflow_unrouted. Qed.
+Print Assumptions C20_overflow_event_unrouted.
+
+(* (2) The monitor decides this on implementation traces against the scenario's oracle (the wd that the
+   interposed inotify_add_watch returns), not against the implementation's own return code and tree: a
+   read it accepts started from a watch set without an entry under -1, delivered no event with wd -1,
+   contains no successful registration answered -1, and leaves no entry under -1 at any handler exit. *)
+Theorem C20_monitor_sound_no_watch :
+  forall sc i c0 evs tr, mon_feed sc i c0 evs tr = true ->
+    (forall w, ~ In (-1, w) c0) /\ Forall nowd_ok tr.
+Proof. exact c20_monitor_sound_nowd. Qed.
+Print Assumptions C20_monitor_sound_no_watch.
+
+(* (3) Top-level action records (dumps of the instances `ids` before and after, the action, its rc): the
+   monitor accepts every action of the model from every reachable state ... *)
+Theorem C20_monitor_act_accepts :
+  forall s a ids, Inv s ->
+    exists s' rc, do_act s a = (Ok s', rc) /\ Inv s' /\
+                  mon_act (dumps_of s ids) (dumps_of s' ids) a rc = true.
+Proof. exact c20_monitor_act_accepts. Qed.
+Print Assumptions C20_monitor_act_accepts.
+
+(* ... and a record it accepts has no entry under -1 in any dump and, when the oracle answered -1,
+   rc -1 (or 1) and unchanged dumps. *)
+Theorem C20_monitor_act_sound :
+  forall before after a rc, mon_act before after a rc = true ->
+    (forall i l w, In (i, l) after -> ~ In (-1, w) l) /\
+    (forall w i m, a = ARegW w i (-1) m -> (rc = -1 \/ rc = 1) /\ after = before).
+Proof. exact c20_monitor_act_sound. Qed.
+Print Assumptions C20_monitor_act_sound.
+
+(* The behaviour of iv_inotify_watch_register without `if (w->wd == -1) return -1;`, as observed on
+   `I1 W1@1:-1:100 F1=/-1:4000:0: J1`: the registration returns 0 with the watch in the tree under -1,
+   and the queue-overflow event of the next read reaches its handler.  The model does neither, and the
+   monitor rejects both records although they are consistent with the implementation's own rc and tree. *)
+Example C20_failed_registration_regression :
+  let ovf := {| e_wd := -1; e_mask := 16384; e_cookie := 0; e_name := [] |} in
+  let d := {| d_w := 1%positive; d_wd := -1; d_mask := 16384; d_cookie := 0; d_name := []; d_wmask := 256;
+              d_entry := [(-1, 1%positive)]; d_acts := []; d_exit := Some [(-1, 1%positive)] |} in
+  match run_ops (fun _ _ => []) init
+          [OAct (ARegI 1%positive true); OAct (ARegW 1%positive 1%positive (-1) 256);
+           OFeed 1%positive [RData (encode [ovf])]] with
+  | (Ok s, [(0, []); (-1, []); (0, [])]) =>
+      match dump s 1%positive with Some [] => true | _ => false end
+  | _ => false
+  end = true /\
+  mon_act [(1%positive, [])] [(1%positive, [])] (ARegW 1%positive 1%positive (-1) 256) (-1) = true /\
+  mon_act [(1%positive, [])] [(1%positive, [(-1, 1%positive)])] (ARegW 1%positive 1%positive (-1) 256) 0 = false /\
+  mon_feed (fun _ _ => []) 1%positive [] [ovf] [] = true /\
+  mon_feed (fun _ _ => []) 1%positive [(-1, 1%positive)] [ovf] [d] = false /\
+  mon_feed (fun _ _ => []) 1%positive [] [ovf] [d] = false.
+Proof. vm_compute. repeat split; reflexivity. Qed.
+
 (* The defect fixed by 93a6820, as a modelled outcome: iv_inotify_register
    without `this->term = NULL` leaves ->term as malloc left it, and the first
    unregister writes through it. *)
